@@ -819,7 +819,13 @@ func ruleR22tracker(c *Ctx) {
 						}
 						// helper shape: the function consists of this `if flag { Unlock }` only, flag is its
 						// parameter, and every call site is followed by a return
-						if op == "Unlock" && !okShape && f.Decl != nil && len(f.Body.List) == 1 && f.Body.List[0] == ast.Stmt(ifs) {
+						topLevel := false
+						for _, st := range f.Body.List {
+							if st == ast.Stmt(ifs) {
+								topLevel = true
+							}
+						}
+						if op == "Unlock" && !okShape && f.Decl != nil && topLevel {
 							sites, good := 0, 0
 							for _, h := range p.Funcs {
 								hin := info(h)
